@@ -249,7 +249,7 @@ func init() {
 		Rules: []Rule{
 			Only(R41(), `read-back-outside-the-lock`),
 			Only(R56(), `^a/`),
-			Only(R22(), `Metageneration`, `metagen`, `read-only`),
+			Only(R22(), `Metageneration`, `metagen`, `read-only`, `through-Add`),
 			R23(),
 			R24(),
 			R11(),
